@@ -132,7 +132,7 @@ class FakeResolver:
 
 
 def run_ftp(url, script, mode='file', chooser=None, explore_events=False, horizon=4000,
-            recorder=None):
+            recorder=None, chunk=None):
     """Run one FTP session.  mode: 'file' (start+download) | 'listing'.
     -> obs dict"""
     from wpull.protocol.ftp.client import Client
@@ -143,7 +143,7 @@ def run_ftp(url, script, mode='file', chooser=None, explore_events=False, horizo
     loop.watchdog = 10.0
     env = Env(loop)
     peer = FTPPeer(script)
-    net = Net(loop, env, peer).install()
+    net = Net(loop, env, peer, chunk=chunk).install()
     chooser = chooser or Chooser()
     obs = {'error': None, 'phase': 'init', 'commands': [], 'body': None}
     try:
